@@ -127,7 +127,15 @@ func runC09(c *core.Ctx) {
 			}
 			for _, field := range []string{"ver", "confVer"} {
 				pr := isVer(field)
-				n := len(ifsOn(insert, pr))
+				// the comparison may decide an If directly or be the last operand of a condition bound to a local
+				n := 0
+				core.Instrs(insert, func(in ssa.Instruction) {
+					if b, ok := in.(*ssa.BinOp); ok {
+						if m, _ := pr(b); m {
+							n++
+						}
+					}
+				})
 				a.check(n >= 1, fname(insert)+" compares "+field+" with the cached version", ci, "", "the staleness test no longer compares the "+field+" of the cached entry with the new one: a region description with an older "+field+" can be installed over a newer one")
 				if n >= 1 {
 					q := &core.Q{Fn: insert, NoEdge: func(e core.Edge) bool {
